@@ -89,7 +89,7 @@ pub fn gen_zone(r: &mut StdRng, apex: &str, class: u16, children: &[&str], o: Zo
         let owner = owners.choose(r).unwrap().clone();
         let owner_cased = rand_case(r, &owner);
         let kind = r.gen_range(0..100);
-        let ttl = *[60u32, 300, 3600].choose(r).unwrap();
+        let ttl = *[60u32, 300, 3600, 60, 300, 3600, 0, 2147483647].choose(r).unwrap();
         let target = |r: &mut StdRng| -> String {
             if r.gen_bool(0.8) { owners.choose(r).unwrap().clone() } else { out_of_zone.choose(r).unwrap().to_string() }
         };
